@@ -74,7 +74,7 @@ CLAIMS["C15"] = (
 )
 CLAIMS["C13"] = (
     "Lean 4 proof that the validation model accepts exactly the valid cuts (and that accepted positions are in range) + EXHAUSTIVE model/code correspondence over the box [-2,n+2]^k for every scorer",
-    "Theorems checkRow_ok_iff, checkRowLocal_ok_iff (accept <=> the property's valid cut), accepted_positions_in_range (no wrap-around / truncation is reachable after acceptance), checkCuts_ok_iff (a batch is accepted iff every row is) in Skc/Props/C13.lean, for all n, min sizes, widths and integer rows.",
+    "Theorems checkRow_ok_iff, checkRowLocal_ok_iff (accept <=> the property's valid cut), accepted_positions_in_range (no wrap-around / truncation is reachable after acceptance), checkCuts_ok_iff (a batch is accepted iff every row is), checkRowW_ok_iff (the same equivalence with the differences taken in wrapping int64 arithmetic, for n < 2^63 — the arithmetic the code executes after normalising cuts to int64) in Skc/Props/C13.lean, for all n, min sizes, widths and integer rows.",
     "the model covers width / spacing / range (and the local-anomaly inner / pooled-surroundings rules); the model's rows are mathematical integers: that the code judges the integers an array HOLDS (whatever its NumPy integer dtype; no wrap-around in differences or products) is checked by the dtypes stream (eight dtypes, values at the ends of each range, valid cuts compared with their int64 evaluation; finding #24 was found and repaired there); ndim and non-integer dtypes are NumPy-container facts exercised on malformed containers; each scorer's min_size is taken from the fitted object and checked against the documented value; the exhaustive box (about 143 k tuples quick) validates the model against all 16 scorer compositions, for fresh objects and objects fitted before on another shape.",
     "3/C13",
 )
